@@ -2,6 +2,7 @@ package main
 
 import (
 	"fmt"
+	"sort"
 	"strings"
 
 	"verifharness/internal/gen"
@@ -282,4 +283,14 @@ func spanCap(span int) int {
 		return 8
 	}
 	return span
+}
+
+// keysOf lists the keys of a fill map in sorted order (for messages).
+func keysOf(m map[string]interface{}) []string {
+	out := make([]string, 0, len(m))
+	for k := range m {
+		out = append(out, k)
+	}
+	sort.Strings(out)
+	return out
 }
